@@ -133,6 +133,71 @@ def make_job(noise):
     return Job(f'interfaces-{noise}', fn)
 
 
+CANON = ('f', 'g', 'h', 'g_prod', 'f_and_g', 'f_and_g_prod')
+KW = ('drift', 'diffusion', 'prior_drift', 'diffusion_prod', 'drift_and_diffusion', 'drift_and_diffusion_prod')
+
+
+def job_rename_contract(E, rep, tier):
+    """Contract of RenameMethodsSDE.__init__ (the `names` mechanism):  for every slot n with source name v,
+         hasattr(sde, v)  ==>  self.n is sde.v          (simultaneous substitution: every source name is resolved on the user's object)
+         not hasattr(sde, v)  ==>  self has no attribute n
+    The source names range over a pool of representatives of every equivalence class the code can distinguish by comparing strings with each
+    other, with the canonical names and with the attributes of the user's object: the 6 canonical names, 6 distinct other attribute names, and
+    one name the object does not have.  Enumerated: every pair of slots with every pair of pool values (other slots default), and every
+    permutation of the canonical names (swaps and cycles); thorough: also every triple of slots."""
+    import itertools
+    rep.under_contract(BS + '.RenameMethodsSDE.__init__')
+    cx = Ctx(E, [])
+    cls = E.module(BS).globals['RenameMethodsSDE']
+
+    class Tok:
+        def __init__(self, n):
+            self.n = n
+
+        def __repr__(self):
+            return f'<user method {self.n}>'
+    other = ('mu', 'sigma', 'nu', 'sig_prod', 'mu_sigma', 'mu_sigma_prod')
+    pool = CANON + other + ('absent',)
+    base_fields = {n: Tok(n) for n in CANON + other}
+    bad, n_inst = [], 0
+
+    def check(assign):
+        nonlocal n_inst
+        user = H.make_user_sde('diagonal', 'ito', dict(base_fields))
+        kw = {KW[i]: v for i, v in assign.items()}
+        obj = E.instantiate(cls, [user], kw, cx, 0)
+        n_inst += 1
+        for i, n in enumerate(CANON):
+            v = assign.get(i, n)
+            got = obj.fields.get(n)
+            want = base_fields.get(v)
+            if got is not want:
+                bad.append({'names': {KW[j]: w for j, w in assign.items()}, 'slot': n, 'bound to': repr(got), 'should be': repr(want)})
+    for i, j in itertools.combinations(range(6), 2):
+        for vi in pool:
+            for vj in pool:
+                check({i: vi, j: vj})
+    tag = 'C16/RenameMethodsSDE.__init__/post.every-slot-is-the-users-method-of-that-source-name'
+    rep.add(tag + '[pairs-of-slots]', 'post', 'discharged' if not bad else 'refuted', 'pyvc-exec', model=None if not bad else bad[0],
+            note=f'{n_inst} instantiations')
+    bad2, bad = bad, []
+    n0 = n_inst
+    for perm in itertools.permutations(range(6)):
+        check({i: CANON[perm[i]] for i in range(6)})
+    rep.add(tag + '[permutations-of-canonical-names]', 'post', 'discharged' if not bad else 'refuted', 'pyvc-exec', model=None if not bad else bad[0],
+            note=f'{n_inst - n0} instantiations')
+    if tier == 'thorough':
+        bad = []
+        n0 = n_inst
+        for tri in itertools.combinations(range(6), 3):
+            for vals in itertools.product(pool, repeat=3):
+                check(dict(zip(tri, vals)))
+        rep.add(tag + '[triples-of-slots]', 'post', 'discharged' if not bad else 'refuted', 'pyvc-exec', model=None if not bad else bad[0],
+                note=f'{n_inst - n0} instantiations')
+    rep.bounded.append({'what': 'C16/RenameMethodsSDE.__init__', 'bound': 'source names from a pool of 13 representatives (6 canonical, 6 other, 1 absent); '
+                        'pairs of slots x pairs of values, all 720 permutations of the canonical names' + (', triples of slots' if tier == 'thorough' else '')})
+
+
 def job_operators(E, rep, tier):
     rep.under_contract(BS + '.ForwardSDE.g_prod_and_gdg_prod_default', BS + '.ForwardSDE.g_prod_and_gdg_prod_diagonal',
                        BS + '.ForwardSDE.g_prod_and_gdg_prod_additive', BS + '.ForwardSDE.dg_ga_jvp_column_sum_v1',
@@ -215,11 +280,14 @@ def job_operators(E, rep, tier):
 
 
 def jobs(tier):
-    return [make_job('diagonal'), make_job('general'), make_job('scalar'), make_job('additive'), Job('operators', job_operators)]
+    return [make_job('diagonal'), make_job('general'), make_job('scalar'), make_job('additive'), Job('operators', job_operators),
+            Job('rename-contract', job_rename_contract)]
 
 
 def canaries(tier):
     return [
+        {'name': 'rename-applied-sequentially-instead-of-simultaneously', 'job': 'rename-contract',
+         'patches': [(BS, "                setattr(self, name, getattr(sde, value))\n", "                setattr(self, name, getattr(self, value) if value in self.__dict__ else getattr(sde, value))\n")]},
         {'name': 'f_and_g_prod-default-ignores-user-g_prod', 'job': 'interfaces-general',
          'patches': [(BS, "        elif hasattr(sde, 'f') and hasattr(sde, 'g_prod'):\n            self.f_and_g_prod = self.f_and_g_prod_default1\n", "        elif hasattr(sde, 'f') and hasattr(sde, 'g_prod') and hasattr(sde, 'g'):\n            self.f_and_g_prod = self.f_and_g_prod_default1\n")]},
         {'name': 'gdg-default-single-jvp', 'job': 'operators',
@@ -229,3 +297,10 @@ def canaries(tier):
         {'name': 'rename-maps-diffusion-to-f', 'job': 'interfaces-diagonal',
          'patches': [(BS, "for name, value in zip(('f', 'g', 'h', 'g_prod', 'f_and_g', 'f_and_g_prod'),", "for name, value in zip(('g', 'f', 'h', 'g_prod', 'f_and_g', 'f_and_g_prod'),")]},
     ]
+
+
+def native_replay(ob):
+    from props.base import run_native
+    if 'RenameMethodsSDE' in ob['name'] and isinstance(ob.get('model'), dict) and 'names' in ob['model']:
+        return run_native('c16rename', {'names': ob['model']['names']})
+    return run_native('c16')
